@@ -1,5 +1,6 @@
 import RxProofs.Lemmas.SubjThm
 import RxProofs.Lemmas.SubjNat
+import RxProofs.Lemmas.SubjLate
 /-!
 # C23 — an AsyncSubject delivers only the final value
 
@@ -56,6 +57,23 @@ theorem async_late_last_then_completed {cfg : Cfg} {v : Option α} (hv : InitOK 
     r1.1.log j = [] ∧ r2.1.log j = [.next x] ∧
     Reachable cfg v r2.1 (nextAgenda r2 (.deliver j .completed :: .finish j (some .noop) :: rest)) :=
   async_late_value hv hk who j x h hs hd hj hx hc
+
+/-- **async_late_gets_both.**  …and the completion always follows: whatever the reactions of the late
+subscriber's own callback to the value do (they run to completion inside `subscribe`, `RunsTo`), they cannot
+detach it — it holds no handle before `subscribe` returns — so it is then handed `completed`: its log is
+exactly `[x, completed]`. -/
+theorem async_late_gets_both {cfg : Cfg} {v : Option α} (hv : InitOK cfg v) {st : St α}
+    {rest : List (Subj.Task α)} (hk : cfg.kind = .async) (who : Option Id) (j : Id) (x : α)
+    (h : Reachable cfg v st (.act who (.sub j) :: rest))
+    (hs : st.stopped = true) (hd : st.disposed = false) (hj : st.seen j = false)
+    (hx : lastNext st.tr = some x) (hc : terminated st.tr = some .completed) :
+    let r1 := step1 cfg st (.act who (.sub j))
+    let r2 := step1 cfg r1.1 (.deliver j (.next x))
+    r2.2.2 = false ∧
+    ∀ st', RunsTo cfg r2.1 r2.2.1 st' →
+      (step1 cfg st' (.deliver j .completed)).1.log j = [.next x, .completed] ∧
+      Reachable cfg v st' (.deliver j .completed :: .finish j (some .noop) :: rest) :=
+  async_late_both hv hk who j x h hs hd hj hx hc
 
 /-- **async_error_only.**  On error exactly the members are queued for the error and nothing else (no
 value, even if one exists); a later subscriber (with a handler) gets only the error, forever. -/
